@@ -21,6 +21,11 @@ def fn(cx, p):
     return cx.facts.fn(p) if cx.facts.has_fn(p) else None
 
 
+def mid_fn(cx):
+    """the interior-slope helper: (Knot, Knot, Knot) -> f64 called from constrained_spline (`f_dx` today)"""
+    return helper_by_role(cx.facts, fn(cx, 'spline::constrained_spline'), ['poly::Knot'] * 3, 'f64', 'spline::f_dx')
+
+
 def canon_elems(t, seqterm, nfc):
     """rewrite elem(seq, idx, f) so that equal index expressions become identical terms
     (saturating subtractions / minima are resolved under len ≥ 3, which the entry assertion guarantees)"""
@@ -34,9 +39,10 @@ def canon_elems(t, seqterm, nfc):
 
 
 def hermite(cx, rep):
-    f = fn(cx, 'spline::segment')
+    f = helper_by_role(cx.facts, fn(cx, 'spline::constrained_spline'), ['f64', 'poly::Knot', 'f64', 'poly::Knot'],
+                       ('piecewise::Segment', 'poly::Poly3'), 'spline::segment')
     if f is None:
-        rep.finding('floor', 'hermite', 'spline::segment not found')
+        rep.finding('floor', 'hermite', 'no helper (f64, Knot, f64, Knot) -> Segment<Poly3> is called from constrained_spline')
         return None
     inst = f['path']
     file, line = fn_loc(f)
@@ -87,9 +93,9 @@ def hermite(cx, rep):
 
 
 def mid_slope(cx, rep, prop='C04'):
-    f = fn(cx, 'spline::f_dx')
+    f = mid_fn(cx)
     if f is None:
-        rep.finding('floor', 'mid', 'spline::f_dx not found')
+        rep.finding('floor', 'mid', 'no helper (Knot, Knot, Knot) -> f64 is called from constrained_spline')
         return None
     inst = f['path']
     file, line = fn_loc(f)
